@@ -1,6 +1,6 @@
 (* C07: what today's code (the `_current` parameters of the model) violates. Witnesses closed by vm_compute. *)
 From Coq Require Import ZArith List Bool.
-From OG Require Import C07.Model.
+From OG Require Import C07.Model C07.ModelRows C07.ModelPreAgg.
 Import ListNotations.
 Open Scope Z_scope.
 
@@ -47,3 +47,16 @@ Theorem C07_wal_header_only_tail_refuted : exists typ p stale,
   frame_dec_current no_d stale (firstn 5 (frame_enc no_c typ p)) = Some (typ, stale, []).   (* today: fabricated *)
 Proof. exists 1, [7; 8; 9], [1; 2; 3]. vm_compute. repeat split. Qed.
 Print Assumptions C07_wal_header_only_tail_refuted.
+
+(* C07-preagg-vlc-zero-flag: under chunk-meta-compress-mode "self" today's float statistics writer drops min, max and sum
+   (flag byte 0) when `maxV == 0 && minV == 0` on float64 - true for -0.0 as well, and whatever the sum is (NaN when the
+   column also holds a NaN): the reader restores +0.0 for all three. Statistics of a column of -0.0 do not read back. *)
+Theorem C07_preagg_vlc_zero_flag_refuted : exists s,
+  stat_ok s = true /\ s_cnt s <> 1 /\
+  fl_applicable_current (fl_layout_g fl_zero_current (fun n => n <? size_float) true s) s = true /\
+  fl_dec (fl_marshal_current true s) = Some (mkStat 0 0 (s_minT s) (s_maxT s) 0 (s_cnt s), []) /\
+  forall rest, fl_dec (fl_marshal_current true s) <> Some (s, rest).
+Proof.
+  exists (mkStat nz nz 1000 2000 0 2). vm_compute. repeat split; try congruence.
+Qed.
+Print Assumptions C07_preagg_vlc_zero_flag_refuted.
